@@ -85,6 +85,7 @@ type sub struct {
 	ctx            context.Context
 	cancelCtx      context.CancelFunc
 	params         []interface{}
+	requested      bool // an eth_subscribe has been issued for this subscription (under rc.mux)
 	pendingReqID   string
 	currentSubID   string
 	newSubResponse chan *RPCError
@@ -164,7 +165,7 @@ func (rc *wsRPCClient) addInflightRequest(req *RPCRequest) (string, chan *RPCRes
 func (rc *wsRPCClient) addInflightSub(s *sub, initial bool) (string, bool) {
 	rc.mux.Lock()
 	defer rc.mux.Unlock()
-	if initial && (s.pendingReqID != "" || s.currentSubID != "") {
+	if initial && s.requested {
 		return s.pendingReqID, false
 	}
 	if _, configured := rc.configuredSubs[*s.localID]; !configured {
@@ -176,6 +177,7 @@ func (rc *wsRPCClient) addInflightSub(s *sub, initial bool) (string, bool) {
 		delete(rc.pendingSubsByReqID, s.pendingReqID)
 	}
 	rc.requestCounter++
+	s.requested = true
 	s.pendingReqID = fmt.Sprintf("%.9d", rc.requestCounter)
 	s.currentSubID = ""
 	rc.pendingSubsByReqID[s.pendingReqID] = s
